@@ -1,6 +1,8 @@
 package main
 
 import (
+	"io"
+	"bufio"
 	"bytes"
 	"encoding/binary"
 	"fmt"
@@ -533,8 +535,47 @@ func descSame(impl, model string) bool {
 	return impl == model
 }
 
+// the same profile through the reader kinds callers use: a default bufio.Reader (as over a file) and a
+// reader that delivers a few bytes at a time
+type dribble struct {
+	r io.Reader
+	n int
+}
+
+func (d *dribble) Read(p []byte) (int, error) {
+	if len(p) > d.n {
+		p = p[:d.n]
+	}
+	return d.r.Read(p)
+}
+
+func implDescVia(data []byte, mk func([]byte) *bufio.Reader) (s string) {
+	defer func() {
+		if r := recover(); r != nil {
+			s = "panic"
+		}
+	}()
+	p, err := icc.NewProfileReader(mk(data)).ReadProfile()
+	if err != nil {
+		return "err"
+	}
+	d, err := p.Description()
+	if err != nil {
+		return "err"
+	}
+	return "ok " + hx([]byte(d))
+}
+
 func c17Case(c *ctx, kind string, data []byte, want [][]byte, ntags int) {
 	impl := implDesc(data)
+	for name, mk := range map[string]func([]byte) *bufio.Reader{
+		"bufio.Reader": func(b []byte) *bufio.Reader { return bufio.NewReader(bytes.NewReader(b)) },
+		"bufio(64) over 7-byte reads": func(b []byte) *bufio.Reader { return bufio.NewReaderSize(&dribble{bytes.NewReader(b), 7}, 64) },
+	} {
+		if via := implDescVia(data, mk); via != impl && !(strings.HasPrefix(via, "ok") && strings.HasPrefix(impl, "ok") && want != nil && len(want) > 1) {
+			c.res.fail(Failure{Class: "C17:reader-kind", Desc: "the description read through a " + name + " differs from the one read from the bytes directly (" + kind + ")", Input: hx(data), Got: short(via, 200), Want: short(impl, 200)})
+		}
+	}
 	c.res.count(kind, string(data), want != nil)
 	c.res.Hist[fmt.Sprintf("tags<=%d", []int{0, 1, 4, 16, 64}[func() int {
 		switch {
